@@ -37,8 +37,9 @@ func (rn *runner) deadline(ms int64) time.Time {
 }
 
 type chunkReader struct {
-	data  []byte
-	chunk int
+	data    []byte
+	chunk   int
+	withEOF bool // final bytes are returned together with io.EOF (as an io.Reader may)
 }
 
 func (r *chunkReader) Read(p []byte) (int, error) {
@@ -54,6 +55,9 @@ func (r *chunkReader) Read(p []byte) (int, error) {
 	}
 	copy(p, r.data[:n])
 	r.data = r.data[n:]
+	if r.withEOF && len(r.data) == 0 {
+		return n, io.EOF
+	}
 	return n, nil
 }
 
@@ -141,7 +145,7 @@ func (rn *runner) runWriter(e *RealEnd, tc *TaskCfg, t *Task) {
 					wn, werr = io.WriteString(w, string(part))
 				case "rf":
 					var n64 int64
-					n64, werr = io.Copy(w, &chunkReader{data: part, chunk: ch.RfChunk})
+					n64, werr = io.Copy(w, &chunkReader{data: part, chunk: ch.RfChunk, withEOF: ch.RfEOF})
 					wn = int(n64)
 				case "z":
 					wn, werr = w.Write(nil)
